@@ -21,6 +21,10 @@ CHECKS = {
    text="Every digraph on 3 nodes with out-edge lists of length <= 2 and on 4 nodes with lists of length <= 1 (thorough: 3 nodes/length 3, 4 nodes/length 2; order and duplicates kept, so self-loops, cycles, diamonds and multi-yield bodies all occur) is turned into a closure body; every start node, eleven closure forms and nestings (E*, E+, (E*)*, (E+)*, (E*)+, ((E*)*)*, E**, E+*, ...), streams of inputs with repeats and two-slot stacks are executed on the engine, which is cut off after |reachable|+1 results. Oracle: Python graph reachability, each reachable stack exactly once per input, plus the laws E? = (E,) and E+ = distinct(E E*) on the implementation alone. Closure evaluation is a worklist algorithm over a seen-set, whose behaviours are determined by the graph shape; enumerating all small graphs covers every shape of revisit.",
    note="Termination is decided within the enumerated graphs only (bounded: one result too many or a watchdog expiry is a violation); large families run on the non-sanitized engine build.",
    tech="bounded exhaustive enumeration of graphs x start states x closure forms on the implementation vs reachability reference"),
+ "C04": dict(cat="model_checking", ref="DESIGN.md §2 C04",
+   text="Exhaustive enumeration of sub-expressions E (all expressions up to 3 nodes, 4 in the thorough tier, over 19 atoms of every stack effect incl. multi-yield, soft-failing, type-mismatching, closure and block atoms, and 8 combinators) in the forms ?(E), !(E), E op 1, 1 op E, [E], let X := E; and let X := E; X, each on every stack of depth 0-2 (and some of depth 3) over a value pool; every ?w/!w pair of the core and DWARF vocabularies on one value of every type; DWARF traversals (child, parent, attribute, @AT_x, unit, root, abbrev, closures of them) on every DIE of sample files. Metamorphic oracles evaluated on the implementation alone for every single input: output is nothing or the identical stack (depth, values, positions); exactly one of ?X/!X yields (neither only with a diagnostic, never both); let multiplies the unchanged stack by the number of results of E; [E] appends exactly the sequence of E's top values.",
+   note="Executions that fail hard (API error) or diverge are outside the laws and counted; quick tier samples every 4th DW_* predicate word, thorough takes all.",
+   tech="bounded exhaustive enumeration of sub-expressions x forms x input stacks on the implementation; metamorphic partition/identity laws"),
 }
 NOT_YET = "check under construction in this session; not claimed until it has run to completion on the unchanged tree"
 
